@@ -1818,7 +1818,7 @@ func (c S3ApiController) PutActions(ctx *fiber.Ctx) error {
 	acct := ctx.Locals("account").(auth.Account)
 	isRoot := ctx.Locals("isRoot").(bool)
 	contentType := ctx.Get("Content-Type")
-	contentEncoding := ctx.Get("Content-Encoding")
+	contentEncoding := utils.ContentEncoding(ctx)
 	contentDisposition := ctx.Get("Content-Disposition")
 	contentLanguage := ctx.Get("Content-Language")
 	cacheControl := ctx.Get("Cache-Control")
@@ -3561,7 +3561,7 @@ func (c S3ApiController) CreateActions(ctx *fiber.Ctx) error {
 	contentDisposition := ctx.Get("Content-Disposition")
 	contentLanguage := ctx.Get("Content-Language")
 	cacheControl := ctx.Get("Cache-Control")
-	contentEncoding := ctx.Get("Content-Encoding")
+	contentEncoding := utils.ContentEncoding(ctx)
 	tagging := ctx.Get("X-Amz-Tagging")
 
 	if keyEnd != "" {
